@@ -49,7 +49,8 @@ def factoryLine (t : Tok) (cnt : Nat) : String := Id.run do
   let l1 := match last with | some x => fmt x | none => "-"
   s!"n={n} first={f1} last={l1} sum={sum} distinct={increasing} same={same} panic={panicked}"
 
-/-- A composite source in a loop (`g`/`r`: fd-backed leaves, `t`: a timer leaf).  Every (re)registration hands the leaves
+/-- A composite source in a loop (`g`/`r`: fd-backed leaves, `e`: a `Generic` leaf with an empty interest — registered
+    under its key, never answering —, `t`: a timer leaf).  Every (re)registration hands the leaves
     that are still part of the source, in order, the tokens of a fresh factory for the source's registration token — so
     the j-th *active* leaf sits in the poller (or in the timer wheel) under sub-id `j`; `retire` takes the first active
     leaf out of the source (it is unregistered at the next re-registration and the leaves behind it move down); a
@@ -81,17 +82,22 @@ def compositeLine (leaves : List Char) (ops : List String) : String :=
       (act', subs, on, out ++ [show1 subs])
     | "unwrap" =>
       -- the first active `Generic` leaf is taken out and unwrapped: its fd leaves the poller at once
-      let cand := (List.range n).filter fun j => (act[j]?.getD false) && leaves[j]? == some 'g'
+      let cand := (List.range n).filter fun j => (act[j]?.getD false) && (leaves[j]? == some 'g' || leaves[j]? == some 'e')
       match cand.head? with
       | some i =>
         let act' := act.mapIdx fun j a => if j == i then false else a
         let subs' := subs.mapIdx fun j s => if j == i then none else s
         (act', subs', on, out ++ [show1 subs'])
       | none => (act, subs, on, out ++ [show1 subs])
+    | "rereg" =>
+      -- a `Reregister` post action needs an event: some active leaf that can answer one
+      let can := (List.range n).any fun j => (act[j]?.getD false) && leaves[j]? != some 't' && leaves[j]? != some 'e'
+      let s := if on && can then assign act else subs
+      (act, s, on, out ++ [show1 s])
     | _ => let s := if on then assign act else subs; (act, s, on, out ++ [show1 s])) (act0, init, true, [show1 init])
   let _ := act
   let idx := List.range n
-  let poked := idx.filter fun i => leaves[i]? != some 't' && (subs[i]?.getD none).isSome
+  let poked := idx.filter fun i => leaves[i]? != some 't' && leaves[i]? != some 'e' && (subs[i]?.getD none).isSome
   let fired := idx.filter fun i => leaves[i]? == some 't' && (subs[i]?.getD none).isSome
   let showL (l : List Nat) : String := if l.isEmpty then "-" else ",".intercalate (l.map toString)
   s!"{";".intercalate stages} own=true ok=true poked={showL poked} fired={showL fired}"
